@@ -22,7 +22,7 @@ func init() {
 	})
 }
 
-var c10States = []string{"idle", "mid_stream", "blocked_on_window", "output_full_to_server", "output_full_to_client", "before_preface"}
+var c10States = []string{"idle", "mid_stream", "blocked_on_window", "output_full_to_server", "output_full_to_client", "before_preface", "during_dial"}
 var c10Events = []string{"client_closes", "server_closes", "write_error_to_client", "write_error_to_server", "garbage_from_client", "garbage_from_server", "shutdown"}
 
 func runC10(k *kernel.K) {
@@ -32,10 +32,16 @@ func runC10(k *kernel.K) {
 	n.DefaultPolicy = []simnet.ChunkPolicy{simnet.ChunkAll, simnet.ChunkBig, simnet.ChunkMixed, simnet.ChunkMed}[w.Draw(4)]
 	n.DefaultCap = []int{0, 4096, 600}[w.Pick([]int{2, 2, 2})]
 	n.TCPLikeConns = w.Chance(1, 2)
-	hw.start(nil)
-	cl, sv := hw.cl, hw.sv
 	state := c10States[w.Draw(len(c10States))]
 	event := c10Events[w.Draw(len(c10Events))]
+	if state == "during_dial" {
+		// the upstream accepts the connection and then stays silent: Config.Proxy is still
+		// setting up its upstream connection when the proxy shuts down
+		hw.stallDial = make(chan struct{})
+		event = "shutdown"
+	}
+	hw.start(nil)
+	cl, sv := hw.cl, hw.sv
 	if state == "before_preface" {
 		// the client is connected and the upstream dialled, but the client has not sent its
 		// connection preface yet: only these ways of ending make sense
@@ -100,7 +106,10 @@ func runC10(k *kernel.K) {
 		return fmt.Sprintf("%s|%d.%d|%d.%d|%v", n.Fingerprint(), cl.next, len(cl.Recv), sv.next, len(sv.Recv), d)
 	}
 
-	if state != "before_preface" {
+	if state == "during_dial" {
+		cl.Script, sv.Script = nil, nil
+		k.Probe("ended_during_the_upstream_dial")
+	} else if state != "before_preface" {
 		cl.SendPreface()
 	} else {
 		cl.Script, sv.Script = nil, nil
@@ -237,7 +246,7 @@ func runC10(k *kernel.K) {
 		}
 	} else {
 		k.Probe("returned_" + strings.ReplaceAll(bounded, " ", "_"))
-		if !hw.scSys.Closed() {
+		if !hw.scSys.Closed() && state != "during_dial" { // (during the dial there is no upstream connection yet)
 			k.Fail("C10.upstream_closed", map[string]string{"event": event}, "Config.Proxy returned after %s (state %s) but the upstream connection it dialled was not closed", event, state)
 		}
 		// The caller (handleLoop) closes the client connection once Proxy returns.
